@@ -182,6 +182,15 @@ CLAIMS = {
         'substituted nodes).',
    note='Trusted: Coq kernel/vm_compute; hand model Subst.v tied by correspondence; FST.match for the set of matching nodes (C17); ast.unparse/parse to decide that a reference result is a program. No axioms.',
    design='DESIGN.md section 4 C18'),
+ 'C19': dict(
+   technique='Coq proof: expression <-> match-pattern coercion over a grammar covering everything the routines accept: whenever a coercion succeeds the result has exactly the names and constants of the operand in the same order (both directions), simple forms round-trip, other expressions are refused; correspondence of accept/refuse and result structure with as_(pattern) / FST(ast, pattern) / as_(expr); kind x mode matrix oracle',
+   text='Proved (closed): for every expression of the modelled grammar that coerces to a pattern the pattern has the same leaves in the same order (wildcard, or-ladders flattened in order, mapping keys, class keyword names, '
+        '** rest), likewise pattern to expression; captures, literals, signed numbers and attribute chains go there and back unchanged. Partial: the remaining coercion routines and formatting are decided by '
+        'the oracle: 65 hand operands + corpus nodes x 40 target modes: operand untouched under copy=True, result of the requested kind, verifies and re-parses in that mode to itself, same names/constants, same '
+        'kind unchanged, formatted vs pure-AST coercion agree, in-place == copy, coercing put == put of the converted node. Two defects repaired in /repo, one recorded as known finding (its wrong '
+        'behaviour is pinned by an existing snapshot test).',
+   note='Trusted: Coq kernel/vm_compute; hand model Coerce.v tied by correspondence; FST(src, mode) (C05) as the meaning of "parses in the requested mode". No axioms.',
+   design='DESIGN.md section 4 C19'),
 }
 
 checks = []
